@@ -1,10 +1,8 @@
 import Qentem.Proofs.TmplGen
+import Qentem.Proofs.TmplIifRender
+import Qentem.Proofs.TmplSvarRender
 /-!
-# C02 stage 7 — rendering trees with loops against the reference interpreter
-
-`EnvE`: one enclosing loop with its current item and key.  The renderer's `loops_items_` holds the
-items of the enclosing loops at their levels (`ItemsOk`); the reference interpreter's scope is the
-list of their bindings, innermost first (`scOf`).
+# C02 stage 7/8/9 — rendering trees against the reference interpreter
 -/
 set_option linter.unusedSectionVars false
 set_option linter.unusedVariables false
@@ -15,659 +13,8 @@ open Qentem.Generated.Tmpl
 
 variable {R : Type}
 
-/-- one enclosing loop with the item and key of the current iteration -/
-structure EnvE where
-  d : LoopD
-  x : Doc
-  key : List Nat
-
-def dOf (E : List EnvE) : List LoopD := E.map (·.d)
-def scOf (E : List EnvE) : List Binding := E.map (fun e => ⟨e.d.V, e.x, e.key⟩)
-
-/-- `loops_items_` holds every enclosing loop's current item at the loop's level -/
-def ItemsOk (items : List LoopItem) (E : List EnvE) : Prop :=
-  ∀ e ∈ E, items[e.d.lv]? = some ⟨some e.x, e.key⟩
-
-/-- the documented path shape; a path that starts with the value name of an enclosing loop has that
-name as its name part -/
-def PathOkV (Vs : List (List Nat)) (p : List Nat) : Prop :=
-  ∃ name keys, p = name ++ brk keys ∧ name ≠ [] ∧ noB name ∧ (∀ k ∈ keys, noB k) ∧
-    ∀ V ∈ Vs, V.isPrefixOf p = true → name = V
-
-/-- the value names of the enclosing loops, innermost first -/
-def vsOf (E : List EnvE) : List (List Nat) := E.map (·.d.V)
-
-theorem findV_name (name rest : List Nat) : ∀ (E : List EnvE),
-    (∀ e ∈ E, e.d.V.isPrefixOf (name ++ rest) = true → name = e.d.V) →
-    findV (dOf E) (name ++ rest) = (E.find? (fun e => e.d.V == name)).map (fun e => (e.d.V.length, e.d.lv)) := by
-  intro E
-  induction E with
-  | nil => intro _; rfl
-  | cons e r ih =>
-    intro h
-    simp only [dOf, List.map_cons, findV, List.find?_cons]
-    by_cases hp : e.d.V.isPrefixOf (name ++ rest) = true
-    · have hn := h e (List.mem_cons_self ..) hp
-      have : (e.d.V == name) = true := by simp [← hn]
-      simp [hp, this]
-    · have hne : ¬ (e.d.V = name) := by
-        intro he; apply hp; rw [he]; exact isPrefixOf_self_append name rest
-      have : (e.d.V == name) = false := by simpa using hne
-      simp only [hp, Bool.false_eq_true, if_false, this]
-      exact ih (fun x hx => h x (List.mem_cons_of_mem _ hx))
-
-theorem find_sc (name : List Nat) : ∀ (E : List EnvE),
-    (scOf E).find? (fun b => b.name == name) =
-      (E.find? (fun e => e.d.V == name)).map (fun e => (⟨e.d.V, e.x, e.key⟩ : Binding)) := by
-  intro E
-  induction E with
-  | nil => rfl
-  | cons e r ih =>
-    simp only [scOf, List.map_cons, List.find?_cons]
-    cases h : (e.d.V == name)
-    · simp only []; exact ih
-    · rfl
-
-theorem refD_off (D : List LoopD) (o : Nat) (pa : List Nat) : (refD D o pa).off = o := by
-  simp only [refD, mkV]; split <;> rfl
-theorem refD_len (D : List LoopD) (o : Nat) (pa : List Nat) : (refD D o pa).len = pa.length := by
-  simp only [refD, mkV]; split <;> rfl
-
-/-- a `{var:…}` operand of an expression text `ct` scanned alone and its copy `k` units into the
-content, under the chain `D` -/
-def PvD (D : List LoopD) (ct : List Nat) (k n : Nat) (v v' : VarRef) : Prop :=
-  v' = refD D (k + v.off) ((ct.drop v.off).take v.len) ∧ v.off + v.len < n
-
-theorem pvD_scan (cfg : ScanCfg R) (c A ct post : List Nat) (hc : c = A ++ (ct ++ post)) (D : List LoopD)
-    (hD : ChainD c D) (hlen : ct.length ≤ 65536) (off en : Nat) (h2 : off + 5 < en) (h3 : ct[en]? = some 125) :
-    PvD D ct A.length ct.length (Qentem.Expr.scanVar ({ readNum := cfg.readNum } : ScanCfg R) off en)
-      (Qentem.Expr.scanVar ({ cfg with loopVar := loopVarPure c (refsD D) } : ScanCfg R) (A.length + off) (A.length + en)) := by
-  have hen : en < ct.length := (List.getElem?_eq_some_iff.mp h3).1
-  have hmod : (en - (off + 5)) % 2 ^ Qentem.Generated.Expr.variableLengthBits = en - (off + 5) := by
-    apply Nat.mod_eq_of_lt
-    have : (2 : Nat) ^ Qentem.Generated.Expr.variableLengthBits = 65536 := by decide
-    omega
-  -- the operand's text and what follows it
-  have hsplit : ct = ct.take (off + 5) ++ ((ct.drop (off + 5)).take (en - (off + 5)) ++ 125 :: ct.drop (en + 1)) := by
-    have h1 : ct = ct.take (off + 5) ++ ct.drop (off + 5) := (List.take_append_drop _ _).symm
-    have h2' : ct.drop (off + 5) = (ct.drop (off + 5)).take (en - (off + 5)) ++ (ct.drop (off + 5)).drop (en - (off + 5)) :=
-      (List.take_append_drop _ _).symm
-    have h3' : (ct.drop (off + 5)).drop (en - (off + 5)) = ct.drop en := by
-      rw [List.drop_drop]; congr 1; omega
-    have h4 : ct.drop en = 125 :: ct.drop (en + 1) := by
-      rw [List.drop_eq_getElem_cons hen]
-      have := List.getElem?_eq_getElem hen
-      rw [h3] at this
-      rw [← Option.some.inj this]
-    rw [h3', h4] at h2'
-    rw [← h2']; exact h1
-  have hcA : c = (A ++ ct.take (off + 5)) ++
-      ((ct.drop (off + 5)).take (en - (off + 5)) ++ 125 :: (ct.drop (en + 1) ++ post)) := by
-    rw [hc]; conv => lhs; rw [hsplit]
-    simp [List.append_assoc]
-  have hlA : (A ++ ct.take (off + 5)).length = A.length + (off + 5) := by
-    simp only [List.length_append, List.length_take]; omega
-  have hpl : ((ct.drop (off + 5)).take (en - (off + 5))).length = en - (off + 5) := by
-    simp only [List.length_take, List.length_drop]; omega
-  have hck := checkLoopVariable_D c (A ++ ct.take (off + 5)) _ hcA
-    ⟨en - (off + 5), 125, by rw [← hpl]; simp, Or.inl rfl⟩ D hD
-  rw [hlA, findV_stop c 125 (Or.inl rfl) _ _ D hD] at hck
-  refine ⟨?_, ?_⟩
-  · simp only [Qentem.Expr.scanVar, loopVarPure]
-    rw [show A.length + off + 5 = A.length + (off + 5) by omega, hck,
-      show A.length + en - (A.length + (off + 5)) = en - (off + 5) by omega, hmod]
-    simp only [refD, hpl]
-    cases findV D ((ct.drop (off + 5)).take (en - (off + 5))) with
-    | none => rfl
-    | some ab => obtain ⟨a, b⟩ := ab; rfl
-  · simp only [Qentem.Expr.scanVar, hmod]; omega
-
-
-/-- a quoted expression text scanned in place under a loop chain -/
-theorem exprs_quoted_env (cfg : ScanCfg R) (c A0 e post : List Nat)
-    (hc : c = (A0 ++ [34]) ++ (e ++ [34]) ++ post) (D : List LoopD) (hD : ChainD c D) (hlen : e.length < 65536)
-    (items : List (Item R))
-    (hs : Qentem.Expr.parseTop ({ readNum := cfg.readNum } : ScanCfg R) (e ++ [34]) 0 e.length = .ok items) :
-    ∃ items', exprs cfg c (refsD D) (A0.length + 1) (A0.length + 1 + e.length) = .ok items' ∧
-      Qentem.Expr.RelItems (PvD D (e ++ [34]) (A0.length + 1) (e.length + 1)) (A0.length + 1) (e.length + 1) items items' := by
-  have hrel := reloc_quoted c A0 e post hc
-  have hl : (A0 ++ [34]).length = A0.length + 1 := by simp
-  obtain ⟨items', h1, h2⟩ := Qentem.Expr.parseTop_relocV ({ readNum := cfg.readNum } : ScanCfg R)
-    { cfg with loopVar := loopVarPure c (refsD D) } rfl hrel (PvD D (e ++ [34]) (A0.length + 1) (e.length + 1))
-    (by
-      intro off en _ h2 h3
-      have := pvD_scan cfg c (A0 ++ [34]) (e ++ [34]) post (by rw [hc]; simp [List.append_assoc]) D hD
-        (by simp; omega) off en h2 h3
-      rw [hl] at this
-      simpa using this)
-    0 e.length (by simp) items hs
-  exact ⟨items', by simpa [exprs] using h1, by simpa using h2⟩
-
-/-- the expression of a `{math:e}` tag scanned in place under a loop chain -/
-theorem exprs_math_env (cfg : ScanCfg R) (c pre e post : List Nat)
-    (hc : c = pre ++ (([123, 109, 97, 116, 104, 58] ++ e ++ [125]) ++ post)) (D : List LoopD) (hD : ChainD c D)
-    (hlen : e.length < 65536) (items : List (Item R))
-    (hs : Qentem.Expr.parseTop ({ readNum := cfg.readNum } : ScanCfg R) (e ++ [125]) 0 e.length = .ok items) :
-    ∃ items', exprs cfg c (refsD D) (pre.length + 6) (pre.length + 6 + e.length) = .ok items' ∧
-      Qentem.Expr.RelItems (PvD D (e ++ [125]) (pre.length + 6) (e.length + 1)) (pre.length + 6) (e.length + 1) items items' := by
-  have hrel := reloc_math c pre e post hc
-  have hl : (pre ++ [123, 109, 97, 116, 104, 58]).length = pre.length + 6 := by simp
-  obtain ⟨items', h1, h2⟩ := Qentem.Expr.parseTop_relocV ({ readNum := cfg.readNum } : ScanCfg R)
-    { cfg with loopVar := loopVarPure c (refsD D) } rfl hrel (PvD D (e ++ [125]) (pre.length + 6) (e.length + 1))
-    (by
-      intro off en _ h2 h3
-      have := pvD_scan cfg c (pre ++ [123, 109, 97, 116, 104, 58]) (e ++ [125]) post
-        (by rw [hc]; simp [List.append_assoc]) D hD (by simp; omega) off en h2 h3
-      rw [hl] at this
-      simpa using this)
-    0 e.length (by simp) items hs
-  exact ⟨items', by simpa [exprs] using h1, by simpa using h2⟩
-
-
-theorem itemsOk_append (items extra : List LoopItem) (E : List EnvE) (h : ItemsOk items E) :
-    ItemsOk (items ++ extra) E := by
-  intro e he
-  have := h e he
-  have hlt : e.d.lv < items.length := by
-    rcases Nat.lt_or_ge e.d.lv items.length with h' | h'
-    · exact h'
-    · rw [List.getElem?_eq_none h'] at this; cases this
-  rw [List.getElem?_append_left hlt]; exact this
-
-theorem itemsOk_set (items : List LoopItem) (E : List EnvE) (lv : Nat) (it : LoopItem) (h : ItemsOk items E)
-    (hne : ∀ e ∈ E, e.d.lv ≠ lv) : ItemsOk (items.set lv it) E := by
-  intro e he
-  rw [List.getElem?_set_ne (Ne.symm (hne e he))]
-  exact h e he
-
-/-- sum of the per-item fuel needs -/
-def sumEnts (Nf : Doc → List Nat → Nat) : List (List Nat × Doc) → Nat
-  | [] => 0
-  | (k, v) :: r => Nf v k + sumEnts Nf r
-
-
-
 section
 variable [RealLike R]
-
-/-- `getValue` / `loopKeyText` of a variable under the enclosing loops = `resolve` under their bindings -/
-theorem getValue_env (cx : RCtx R) (hg : cx.guardIndexRead = true) (st : RState)
-    (A post p : List Nat) (hc : cx.content = A ++ (p ++ post)) (E : List EnvE)
-    (hp : PathOkV (vsOf E) p) (hit : ItemsOk st.items E) :
-    getValue cx st (refD (dOf E) A.length p) = .ok (resolve cx.root (scOf E) p).1 ∧
-    loopKeyText st (refD (dOf E) A.length p) =
-      .ok (match (resolve cx.root (scOf E) p).2 with
-        | some bd => if bd.key.length = 0 then none else some bd.key
-        | none => none) := by
-  obtain ⟨name, keys, rfl, hne, hn, hk, hpre0⟩ := hp
-  have hpre : ∀ e ∈ E, e.d.V.isPrefixOf (name ++ brk keys) = true → name = e.d.V :=
-    fun e he => hpre0 e.d.V (List.mem_map_of_mem he)
-  have hsp := splitPath_ok name keys hn hk
-  have hfv := findV_name name (brk keys) E hpre
-  have hsc := find_sc name E
-  have hres : resolve cx.root (scOf E) (name ++ brk keys) =
-      match (E.find? (fun e => e.d.V == name)) with
-      | some e => (follow (some e.x) keys, some ⟨e.d.V, e.x, e.key⟩)
-      | none => (follow (cx.root.getKey name) keys, none) := by
-    simp only [resolve, hsp, hsc]
-    cases E.find? (fun e => e.d.V == name) <;> rfl
-  rw [hres]
-  simp only [refD, hfv]
-  cases hf : E.find? (fun e => e.d.V == name) with
-  | none =>
-    simp only [Option.map_none, mkV]
-    exact ⟨getValue_top cx hg st A post name keys hc hne hn hk, by simp [loopKeyText]⟩
-  | some e =>
-    have hmem : e ∈ E := List.mem_of_find?_eq_some hf
-    have hev : e.d.V = name := by
-      have := List.find?_some hf
-      simpa using this
-    simp only [Option.map_some, mkV, hev]
-    have hie := hit e hmem
-    refine ⟨getValue_loopvar cx hg st A post name keys hc hne hn hk e.d.lv _ hie, ?_⟩
-    have hnl : name.length ≠ 0 := by
-      have := List.length_pos_iff.mpr hne; omega
-    simp [loopKeyText, hnl, itemAt, hie]
-
-theorem renderVariable_env (cx : RCtx R) (hg : cx.guardIndexRead = true) (st : RState)
-    (B txt p post : List Nat)
-    (hc : cx.content = B ++ (txt ++ (([123, 118, 97, 114, 58] ++ p ++ [125]) ++ post)))
-    (E : List EnvE) (hp : PathOkV (vsOf E) p) (hit : ItemsOk st.items E) :
-    renderVariable cx st (refD (dOf E) ((B ++ txt).length + 5) p) B.length =
-      .ok (emit (emit st txt) (expSegB cx (scOf E) (.var p)), (B ++ txt).length + 5 + p.length + 1) := by
-  have h5 : W1.variablePrefixLength = 5 := by decide
-  have h6 : W1.variableFullLength = 6 := by decide
-  have hsl : slice cx.content B.length (B ++ txt).length = .ok txt := by rw [hc]; exact slice_from B txt _
-  have hA : (B ++ txt).length + 5 = (B ++ txt ++ [123, 118, 97, 114, 58]).length := by simp [Nat.add_assoc]
-  have hgk := getValue_env cx hg (emit st txt) (B ++ txt ++ [123, 118, 97, 114, 58]) ([125] ++ post) p
-    (by rw [hc]; simp [List.append_assoc]) E hp (by simpa [emit] using hit)
-  rw [← hA] at hgk
-  obtain ⟨hgv, hkt⟩ := hgk
-  have hsrc : slice cx.content (B ++ txt).length ((B ++ txt).length + (p.length + 6)) =
-      .ok (printSeg (.var p)) := by
-    have := slice_mid (B ++ txt) ([123, 118, 97, 114, 58] ++ p ++ [125]) post
-    rw [hc]
-    simpa [printSeg, List.append_assoc, Nat.add_assoc] using this
-  have hoff : (refD (dOf E) ((B ++ txt).length + 5) p).off = (B ++ txt).length + 5 := by
-    simp only [refD, mkV]; split <;> rfl
-  have hlen : (refD (dOf E) ((B ++ txt).length + 5) p).len = p.length := by
-    simp only [refD, mkV]; split <;> rfl
-  simp only [renderVariable, subChk, h5, h6, hoff, hlen, show 5 ≤ (B ++ txt).length + 5 by omega, if_true,
-    Nat.add_sub_cancel, bind, Except.bind, hsl, hgv, hkt, expSegB]
-  cases hv : (resolve cx.root (scOf E) p).1.bind (copyValue cx true) with
-  | some t => simp; omega
-  | none =>
-    cases hb : (resolve cx.root (scOf E) p).2 with
-    | none => simp only [hsrc]; simp; omega
-    | some bd =>
-      by_cases hk0 : bd.key.length = 0
-      · have : bd.key.isEmpty = true := by simpa [List.isEmpty_iff_length_eq_zero] using hk0
-        simp only [hk0, if_true, hsrc, this]; simp; omega
-      · have : bd.key.isEmpty = false := by
-          cases hbk : bd.key with
-          | nil => simp [hbk] at hk0
-          | cons a b => rfl
-        simp only [hk0, if_false, this]; simp; omega
-
-
-theorem renderRaw_env (cx : RCtx R) (hg : cx.guardIndexRead = true) (st : RState)
-    (B txt p post : List Nat)
-    (hc : cx.content = B ++ (txt ++ (([123, 114, 97, 119, 58] ++ p ++ [125]) ++ post)))
-    (E : List EnvE) (hp : PathOkV (vsOf E) p) (hit : ItemsOk st.items E) :
-    renderRawVariable cx st (refD (dOf E) ((B ++ txt).length + 5) p) B.length =
-      .ok (emit (emit st txt) (expSegB cx (scOf E) (.raw p)), (B ++ txt).length + 5 + p.length + 1) := by
-  have h5 : W1.rawVariablePrefixLength = 5 := by decide
-  have h6 : W1.rawVariableFullLength = 6 := by decide
-  have hsl : slice cx.content B.length (B ++ txt).length = .ok txt := by rw [hc]; exact slice_from B txt _
-  have hA : (B ++ txt).length + 5 = (B ++ txt ++ [123, 114, 97, 119, 58]).length := by simp [Nat.add_assoc]
-  have hgk := getValue_env cx hg (emit st txt) (B ++ txt ++ [123, 114, 97, 119, 58]) ([125] ++ post) p
-    (by rw [hc]; simp [List.append_assoc]) E hp (by simpa [emit] using hit)
-  rw [← hA] at hgk
-  obtain ⟨hgv, _⟩ := hgk
-  have hsrc : slice cx.content (B ++ txt).length ((B ++ txt).length + (p.length + 6)) =
-      .ok (printSeg (.raw p)) := by
-    have := slice_mid (B ++ txt) ([123, 114, 97, 119, 58] ++ p ++ [125]) post
-    rw [hc]
-    simpa [printSeg, List.append_assoc, Nat.add_assoc] using this
-  have hoff : (refD (dOf E) ((B ++ txt).length + 5) p).off = (B ++ txt).length + 5 := by
-    simp only [refD, mkV]; split <;> rfl
-  have hlen : (refD (dOf E) ((B ++ txt).length + 5) p).len = p.length := by
-    simp only [refD, mkV]; split <;> rfl
-  simp only [renderRawVariable, subChk, h5, h6, hoff, hlen, show 5 ≤ (B ++ txt).length + 5 by omega, if_true,
-    Nat.add_sub_cancel, bind, Except.bind, hsl, hgv, expSegB]
-  cases hv : (resolve cx.root (scOf E) p).1.bind (copyValue cx false) with
-  | some t => simp; omega
-  | none => simp only [hsrc]; simp; omega
-
-
-
-/-- the code's evaluation of a list scanned in place under the enclosing loops = the evaluation of
-the list scanned alone in the reference environment with their bindings -/
-theorem evalExprs_env (cx : RCtx R) (hg : cx.guardIndexRead = true) (st : RState) (E : List EnvE)
-    (hit : ItemsOk st.items E) (envS : Env R) (k : Nat) (items0 items' : List (Item R))
-    (hre : ∀ lk, Qentem.Expr.RelEnv envS ({ content := cx.content, lookup := lk, readNum := cx.readNum } : Env R) k)
-    (hlookS : ∀ v, envS.lookup v =
-      ((resolve cx.root (scOf E) ((envS.content.drop v.off).take v.len)).1).map (docVarVal (specOf cx)))
-    (hrel : Qentem.Expr.RelItems (PvD (dOf E) envS.content k envS.content.length) k envS.content.length items0 items')
-    (hpath : ∀ v ∈ itemsVars items0, PathOkV (vsOf E) ((envS.content.drop v.off).take v.len))
-    (hlen : k + envS.content.length ≤ cx.content.length) (hne : items'.isEmpty = false) :
-    evalExprs cx st items' = .ok (Qentem.Expr.evaluateTop envS true items0) ∧
-      (∀ v, Qentem.Expr.evaluateTop envS true items0 = some v → ∃ x, v = .num x) := by
-  let g : VarRef → Option Doc := fun v' => (resolve cx.root (scOf E) ((cx.content.drop v'.off).take v'.len)).1
-  have hsl : ∀ v : VarRef, v.off + v.len < envS.content.length →
-      (cx.content.drop (k + v.off)).take v.len = (envS.content.drop v.off).take v.len :=
-    fun v hb => (hre (fun _ => none)).slice v.off v.len (by omega)
-  have hget : ∀ v' ∈ itemsVars items', getValue cx st v' = .ok (g v') := by
-    intro v' hv'
-    obtain ⟨v, hv, hpv, hb⟩ := (rel_vars_back _).1 items0 items' (Nat.le_refl _) hrel v' hv'
-    subst hpv
-    have hp := hpath v hv
-    have hs := hsl v hb
-    have hlp : ((envS.content.drop v.off).take v.len).length = v.len := by
-      simp only [List.length_take, List.length_drop]; omega
-    have hc' : cx.content = cx.content.take (k + v.off) ++
-        ((envS.content.drop v.off).take v.len ++ (cx.content.drop (k + v.off)).drop v.len) := by
-      rw [← hs, List.take_append_drop, List.take_append_drop]
-    have hla : (cx.content.take (k + v.off)).length = k + v.off := by
-      simp only [List.length_take]; omega
-    have := (getValue_env cx hg st _ _ _ hc' E hp hit).1
-    rw [hla] at this
-    rw [this]
-    simp only [g, refD_off, refD_len, hlp, hs]
-  let f : VarRef → Option (Qentem.Expr.VarVal R) := fun v => (g v).map (docToVarVal cx)
-  have hres := resolveVars_ok cx st g (itemsVars items') hget
-  let env' : Env R := ⟨cx.content,
-    fun v => (((itemsVars items').map (fun w => (w, f w))).find? (fun p => p.1 == v)).bind (·.2), cx.readNum⟩
-  have hrel2 := (rel_mem _).1 items0 items'
-    (fun v v' => PvD (dOf E) envS.content k envS.content.length v v' ∧ v' ∈ itemsVars items') (Nat.le_refl _) hrel
-    (fun v v' h _ h2 => ⟨h, h2⟩)
-  have hlk : Qentem.Expr.RelLookup (fun v v' => PvD (dOf E) envS.content k envS.content.length v v' ∧ v' ∈ itemsVars items') envS env' := by
-    intro v v' ⟨⟨hpv, hb⟩, hm⟩
-    show (((itemsVars items').map (fun w => (w, f w))).find? (fun p => p.1 == v')).bind (·.2) = envS.lookup v
-    rw [find_resolved f _ v' hm, hlookS v]
-    subst hpv
-    have hlp : ((envS.content.drop v.off).take v.len).length = v.len := by
-      simp only [List.length_take, List.length_drop]; omega
-    simp only [f, g, refD_off, refD_len, hlp, hsl v hb]
-    congr 1
-  have hev := Qentem.Expr.evaluateTop_reloc (hre env'.lookup) hlk true items0 items' hrel2
-  refine ⟨?_, hev.2⟩
-  simp only [evalExprs, hne, Bool.false_eq_true, if_false, hres, bind, Except.bind]
-  exact congrArg Except.ok hev.1
-
-
-/-- the environment in which the reference interpreter evaluates the text `e` followed by `t` -/
-def specEnvS (cx : RCtx R) (sc : List Binding) (e : List Nat) (t : Nat) : Env R :=
-  { content := e ++ [t],
-    lookup := fun v => ((resolve cx.root sc (((e ++ [t]).drop v.off).take v.len)).1).map (docVarVal (specOf cx)),
-    readNum := cx.readNum }
-
-
-theorem evalText_eqS (cx : RCtx R) (sc : List Binding) (e : List Nat) (t : Nat) (items0 : List (Item R))
-    (h0 : Qentem.Expr.parseTop ({ readNum := cx.readNum } : ScanCfg R) (e ++ [t]) 0 e.length = .ok items0) :
-    evalText (specOf cx) sc e t =
-      if items0.isEmpty then none else Qentem.Expr.evaluateTop (specEnvS cx sc e t) true items0 := by
-  simp only [evalText, specOf, h0]
-  cases items0 with
-  | nil => rfl
-  | cons x xs =>
-    have hwf := Qentem.Expr.parseTop_wf ({ readNum := cx.readNum } : ScanCfg R) (e ++ [t]) 0 e.length (by simp)
-    rw [h0] at hwf
-    rcases hwf with h | h
-    · cases h
-    · simp only [List.isEmpty_cons, Bool.false_eq_true, if_false]
-      exact (Qentem.Expr.evaluateTop_eq_tree _ _ h).symm
-
-
-/-- the paths of the `{var:}` operands the scanner finds in an expression text have the documented
-shape with respect to the enclosing loops -/
-def varsOkV (rn : List Nat → Option (Num R)) (Vs : List (List Nat)) (e : List Nat) (t : Nat) : Prop :=
-  ∀ items : List (Item R),
-    Qentem.Expr.parseTop ({ readNum := rn } : ScanCfg R) (e ++ [t]) 0 e.length = .ok items →
-    ∀ v ∈ itemsVars items, PathOkV Vs (((e ++ [t]).drop v.off).take v.len)
-
-
-theorem renderMath_env (cx : RCtx R) (cfg : ScanCfg R) (hg : cx.guardIndexRead = true)
-    (hrn : cfg.readNum = cx.readNum) (st : RState)
-    (B txt e post : List Nat)
-    (hc : cx.content = B ++ (txt ++ (([123, 109, 97, 116, 104, 58] ++ e ++ [125]) ++ post)))
-    (E : List EnvE) (hD : ChainD cx.content (dOf E)) (hit : ItemsOk st.items E) (hlen : e.length < 65536)
-    (hp : varsOkV cfg.readNum (vsOf E) e 125) :
-    renderMath cx st (itemsAtC cfg cx.content (refsD (dOf E)) ((B ++ txt).length + 6) ((B ++ txt).length + 6 + e.length))
-        (B ++ txt).length ((B ++ txt).length + 6 + e.length + 1) B.length =
-      .ok (emit (emit st txt) (expSegB cx (scOf E) (.math e)), (B ++ txt).length + 6 + e.length + 1) := by
-  obtain ⟨items0, hitems0⟩ := Qentem.Expr.parseTop_total ({ readNum := cfg.readNum } : ScanCfg R) (e ++ [125]) 0 e.length (by simp)
-  have hc2 : cx.content = (B ++ txt) ++ (([123, 109, 97, 116, 104, 58] ++ e ++ [125]) ++ post) := by
-    rw [hc]; simp [List.append_assoc]
-  obtain ⟨items', hex, hrel⟩ := exprs_math_env cfg cx.content (B ++ txt) e post hc2 (dOf E) hD hlen items0 hitems0
-  have hreloc := reloc_math cx.content (B ++ txt) e post hc2
-  have hsl : slice cx.content B.length (B ++ txt).length = .ok txt := by rw [hc]; exact slice_from B txt _
-  have hsrc : slice cx.content (B ++ txt).length ((B ++ txt).length + 6 + e.length + 1) =
-      .ok (printSeg (.math e)) := by
-    have := slice_mid (B ++ txt) ([123, 109, 97, 116, 104, 58] ++ e ++ [125]) post
-    rw [hc2, show (B ++ txt).length + 6 + e.length + 1 =
-      (B ++ txt).length + ([123, 109, 97, 116, 104, 58] ++ e ++ [125]).length by simp; omega]
-    exact this
-  have hitems : itemsAtC cfg cx.content (refsD (dOf E)) ((B ++ txt).length + 6) ((B ++ txt).length + 6 + e.length) = items' := by
-    simp only [itemsAtC, hex]
-  rw [hitems]
-  have hp' : varsOkV cx.readNum (vsOf E) e 125 := hrn ▸ hp
-  rw [hrn] at hitems0
-  have hspec := evalText_eqS cx (scOf E) e 125 items0 hitems0
-  have hemp := hrel.isEmpty
-  cases hi : items0.isEmpty with
-  | true =>
-    rw [hi] at hemp
-    simp only [hi, if_true] at hspec
-    simp only [renderMath, hsl, evalExprs, ← hemp, if_true, bind, Except.bind, hsrc, expSegB, hspec,
-      Option.bind]
-  | false =>
-    rw [hi] at hemp
-    simp only [hi, Bool.false_eq_true, if_false] at hspec
-    have hre : ∀ lk, Qentem.Expr.RelEnv (specEnvS cx (scOf E) e 125)
-        ({ content := cx.content, lookup := lk, readNum := cx.readNum } : Env R) ((B ++ txt).length + 6) :=
-      fun lk => ⟨rfl, hreloc.slice⟩
-    have hlen : (specEnvS cx (scOf E) e 125).content.length = e.length + 1 := by simp [specEnvS]
-    have hev := evalExprs_env cx hg (emit st txt) E (by simpa [emit] using hit) (specEnvS cx (scOf E) e 125) ((B ++ txt).length + 6) items0 items' hre
-      (fun _ => rfl) (by rw [hlen]; exact hrel) (hp' items0 hitems0)
-      (by rw [hlen, hc2]; simp only [List.length_append, List.length_cons, List.length_nil]; omega) hemp.symm
-    simp only [renderMath, hsl, hev.1, bind, Except.bind, expSegB, hspec]
-    cases hv : Qentem.Expr.evaluateTop (specEnvS cx (scOf E) e 125) true items0 with
-    | none => simp only [hsrc, Option.bind]
-    | some v =>
-      obtain ⟨z, hz⟩ := hev.2 v hv
-      subst hz
-      cases z <;> simp [Option.bind, numText, specOf]
-
-
-
-/-- the decision of a quoted case text scanned in place equals the reference `isTrue (evalText e)` -/
-theorem case_hit_env (cx : RCtx R) (cfg : ScanCfg R) (hg : cx.guardIndexRead = true)
-    (hrn : cfg.readNum = cx.readNum) (st : RState)
-    (A0 e post : List Nat) (hc : cx.content = (A0 ++ [34]) ++ (e ++ [34]) ++ post) (E : List EnvE) (hD : ChainD cx.content (dOf E)) (hit : ItemsOk st.items E) (hlen : e.length < 65536)
-    (hvo : varsOkV cx.readNum (vsOf E) e 34) :
-    ((itemsAtC cfg cx.content (refsD (dOf E)) (A0.length + 1) (A0.length + 1 + e.length)).isEmpty =
-      (match Qentem.Expr.parseTop ({ readNum := cx.readNum } : ScanCfg R) (e ++ [34]) 0 e.length with
-       | .ok l => l.isEmpty | .error _ => true)) ∧
-    ((itemsAtC cfg cx.content (refsD (dOf E)) (A0.length + 1) (A0.length + 1 + e.length)).isEmpty = true →
-      (isTrue (evalText (specOf cx) (scOf E) e 34) == some true) = false) ∧
-    ((itemsAtC cfg cx.content (refsD (dOf E)) (A0.length + 1) (A0.length + 1 + e.length)).isEmpty = false →
-      ∃ v, evalExprs cx st (itemsAtC cfg cx.content (refsD (dOf E)) (A0.length + 1) (A0.length + 1 + e.length)) = .ok v ∧
-        (truth v == some true) = (isTrue (evalText (specOf cx) (scOf E) e 34) == some true)) := by
-  obtain ⟨items0, hitems0⟩ := Qentem.Expr.parseTop_total ({ readNum := cfg.readNum } : ScanCfg R) (e ++ [34]) 0 e.length (by simp)
-  obtain ⟨items', hex, hrel⟩ := exprs_quoted_env cfg cx.content A0 e post hc (dOf E) hD hlen items0 hitems0
-  have hreloc := reloc_quoted cx.content A0 e post hc
-  have hitems : itemsAtC cfg cx.content (refsD (dOf E)) (A0.length + 1) (A0.length + 1 + e.length) = items' := by
-    simp only [itemsAtC, hex]
-  rw [hitems]
-  rw [hrn] at hitems0
-  have hspec := evalText_eqS cx (scOf E) e 34 items0 hitems0
-  have hemp := hrel.isEmpty
-  refine ⟨by rw [hitems0]; exact hemp.symm, ?_, ?_⟩
-  · intro h
-    rw [← hemp] at h
-    simp only [hspec, h, if_true, isTrue]
-    rfl
-  · intro h
-    have h0 := h
-    rw [← hemp] at h0
-    simp only [h0, Bool.false_eq_true, if_false] at hspec
-    have hre : ∀ lk, Qentem.Expr.RelEnv (specEnvS cx (scOf E) e 34)
-        ({ content := cx.content, lookup := lk, readNum := cx.readNum } : Env R) (A0.length + 1) :=
-      fun lk => ⟨rfl, hreloc.slice⟩
-    have hlen : (specEnvS cx (scOf E) e 34).content.length = e.length + 1 := by simp [specEnvS]
-    have hev := evalExprs_env cx hg st E hit (specEnvS cx (scOf E) e 34) (A0.length + 1) items0 items' hre (fun _ => rfl)
-      (by rw [hlen]; exact hrel) (hvo items0 hitems0)
-      (by rw [hlen, hc]; simp only [List.length_append, List.length_cons, List.length_nil]; omega) h
-    refine ⟨Qentem.Expr.evaluateTop (specEnvS cx (scOf E) e 34) true items0, hev.1, ?_⟩
-    rw [hspec]
-    cases hv : Qentem.Expr.evaluateTop (specEnvS cx (scOf E) e 34) true items0 with
-    | none => rfl
-    | some v => cases v <;> rfl
-
-
-
-def hitOfS (cx : RCtx R) (sc : List Binding) (e : List Nat) : Bool := isTrue (evalText (specOf cx) sc e 34) == some true
-
-
-/-- the decision of one quoted case that is an expression -/
-theorem one_case_env (cx : RCtx R) (cfg : ScanCfg R) (hg : cx.guardIndexRead = true)
-    (hrn : cfg.readNum = cx.readNum) (st : RState)
-    (A0 e post : List Nat) (hc : cx.content = (A0 ++ [34]) ++ (e ++ [34]) ++ post) (E : List EnvE) (hD : ChainD cx.content (dOf E)) (hit : ItemsOk st.items E) (hlen : e.length < 65536)
-    (hp : varsOkV cx.readNum (vsOf E) e 34) (hex : exprOk cfg.readNum e) :
-    (itemsAtC cfg cx.content (refsD (dOf E)) (A0.length + 1) (A0.length + 1 + e.length)).isEmpty = false ∧
-    ∃ v, evalExprs cx st (itemsAtC cfg cx.content (refsD (dOf E)) (A0.length + 1) (A0.length + 1 + e.length)) = .ok v ∧
-      (truth v == some true) = hitOfS cx (scOf E) e := by
-  obtain ⟨h1, _, h3⟩ := case_hit_env cx cfg hg hrn st A0 e post hc E hD hit hlen hp
-  have hne : (itemsAtC cfg cx.content (refsD (dOf E)) (A0.length + 1) (A0.length + 1 + e.length)).isEmpty = false := by
-    rw [h1]
-    obtain ⟨items0, hitems0⟩ := Qentem.Expr.parseTop_total ({ readNum := cx.readNum } : ScanCfg R) (e ++ [34]) 0 e.length (by simp)
-    rw [hitems0]
-    have := hex items0 (by rw [hrn]; exact hitems0)
-    cases items0 with
-    | nil => exact absurd rfl this
-    | cons x xs => rfl
-  exact ⟨hne, h3 hne⟩
-
-
-/-- path conditions of a segment under the enclosing loops -/
-def Seg.pathV (rn : List Nat → Option (Num R)) (Vs : List (List Nat)) : Seg → Prop
-  | .text _ => True
-  | .var p => PathOkV Vs p
-  | .raw p => PathOkV Vs p
-  | .math e => varsOkV rn Vs e 125 ∧ e.length < 65536
-
-/-- rendering the tags of the segments, then going on with `more` -/
-theorem render_segs_more_env (cx : RCtx R) (cfg : ScanCfg R) (hg : cx.guardIndexRead = true)
-    (hrn : cfg.readNum = cx.readNum) (more : List (Tag R)) (endO : Nat) (post : List Nat)
-    (E : List EnvE) (hD : ChainD cx.content (dOf E)) :
-    ∀ (segs : List Seg) (B txt : List Nat) (st : RState) (fuel : Nat),
-      cx.content = B ++ (txt ++ (printSegs segs ++ post)) → (∀ s ∈ segs, s.pathV cfg.readNum (vsOf E)) → (∀ s ∈ segs, s.ok) →
-      1 ≤ fuel → ItemsOk st.items E →
-      ∃ (B2 txt2 : List Nat) (st2 : RState), cx.content = B2 ++ (txt2 ++ post) ∧
-        (B2 ++ txt2).length = (B ++ txt).length + (printSegs segs).length ∧
-        st2.out ++ txt2 = st.out ++ (txt ++ expSegsB cx (scOf E) segs) ∧ st2.items = st.items ∧
-        render cx (fuel + nTags segs) (tagsOfD cfg cx.content (dOf E) (B ++ txt).length segs ++ more) B.length endO st =
-          render cx fuel more B2.length endO st2 := by
-  intro segs
-  induction segs with
-  | nil =>
-    intro B txt st fuel hc _ _ _ _
-    exact ⟨B, txt, st, by simpa [printSegs] using hc, by simp [printSegs], by simp [expSegsB], rfl, by simp [tagsOfD, nTags]⟩
-  | cons sg rest ih =>
-    intro B txt st fuel hc hok hpl hf hit
-    have hokr : ∀ s ∈ rest, s.pathV cfg.readNum (vsOf E) := fun s hs => hok s (List.mem_cons_of_mem _ hs)
-    have hplr : ∀ s ∈ rest, s.ok := fun s hs => hpl s (List.mem_cons_of_mem _ hs)
-    have hsg := hok sg (List.mem_cons_self ..)
-    -- one tag, then the rest
-    have htag : ∀ (T : Tag R) (X : List Nat) (w : Nat),
-        cx.content = (B ++ txt ++ printSeg sg) ++ ([] ++ (printSegs rest ++ post)) →
-        (B ++ txt ++ printSeg sg).length = w →
-        renderTag cx (fuel + nTags rest) T B.length st = .ok (emit (emit st txt) X, w) →
-        ∃ (B2 txt2 : List Nat) (st2 : RState), cx.content = B2 ++ (txt2 ++ post) ∧
-          (B2 ++ txt2).length = (B ++ txt ++ printSeg sg).length + (printSegs rest).length ∧
-          st2.out ++ txt2 = st.out ++ (txt ++ (X ++ expSegsB cx (scOf E) rest)) ∧ st2.items = st.items ∧
-          render cx (fuel + nTags rest + 1) (T :: (tagsOfD cfg cx.content (dOf E) w rest ++ more)) B.length endO st =
-            render cx fuel more B2.length endO st2 := by
-      intro T X w hc' hw hrt
-      obtain ⟨B2, txt2, st2, h1, h2, h3, h4, h5⟩ := ih (B ++ txt ++ printSeg sg) [] (emit (emit st txt) X) fuel hc' hokr hplr hf (by simpa [emit] using hit)
-      refine ⟨B2, txt2, st2, h1, by simpa using h2, ?_, by simpa [emit] using h4, ?_⟩
-      · rw [h3]; simp [emit, List.append_assoc]
-      · simp only [render, hrt, bind, Except.bind]
-        rw [← hw]
-        simpa using h5
-    cases sg with
-    | text s =>
-      obtain ⟨B2, txt2, st2, h1, h2, h3, h4, h5⟩ := ih B (txt ++ s) st fuel
-        (by rw [hc]; simp [printSegs, printSeg, List.append_assoc]) hokr hplr hf hit
-      refine ⟨B2, txt2, st2, h1, ?_, ?_, h4, ?_⟩
-      · rw [h2]; simp [printSegs, printSeg, List.length_append]; omega
-      · rw [h3]; simp [expSegsB, expSegB, List.append_assoc]
-      · simp only [tagsOfD, nTags]
-        rw [show (B ++ txt).length + s.length = (B ++ (txt ++ s)).length by simp [Nat.add_assoc]]
-        exact h5
-    | var p =>
-      have hv := renderVariable_env cx hg st B txt p (printSegs rest ++ post)
-        (by rw [hc]; simp [printSegs, printSeg, List.append_assoc]) E hsg hit
-      have hl : (B ++ txt ++ printSeg (.var p)).length = (B ++ txt).length + 5 + p.length + 1 := by
-        simp [printSeg]; omega
-      obtain ⟨B2, txt2, st2, h1, h2, h3, h4, h5⟩ := htag (.var (refD (dOf E) ((B ++ txt).length + 5) p)) (expSegB cx (scOf E) (.var p)) _
-        (by rw [hc]; simp [printSegs, List.append_assoc]) hl (by
-          rw [show fuel + nTags rest = (fuel - 1 + nTags rest) + 1 by omega]
-          simp only [renderTag]; exact hv)
-      refine ⟨B2, txt2, st2, h1, ?_, ?_, h4, ?_⟩
-      · rw [h2]; simp [printSegs, List.length_append]; omega
-      · rw [h3]; simp [expSegsB, List.append_assoc]
-      · simpa [tagsOfD, nTags, Nat.add_assoc] using h5
-    | raw p =>
-      have hv := renderRaw_env cx hg st B txt p (printSegs rest ++ post)
-        (by rw [hc]; simp [printSegs, printSeg, List.append_assoc]) E hsg hit
-      have hl : (B ++ txt ++ printSeg (.raw p)).length = (B ++ txt).length + 5 + p.length + 1 := by
-        simp [printSeg]; omega
-      obtain ⟨B2, txt2, st2, h1, h2, h3, h4, h5⟩ := htag (.raw (refD (dOf E) ((B ++ txt).length + 5) p)) (expSegB cx (scOf E) (.raw p)) _
-        (by rw [hc]; simp [printSegs, List.append_assoc]) hl (by
-          rw [show fuel + nTags rest = (fuel - 1 + nTags rest) + 1 by omega]
-          simp only [renderTag]; exact hv)
-      refine ⟨B2, txt2, st2, h1, ?_, ?_, h4, ?_⟩
-      · rw [h2]; simp [printSegs, List.length_append]; omega
-      · rw [h3]; simp [expSegsB, List.append_assoc]
-      · simpa [tagsOfD, nTags, Nat.add_assoc] using h5
-    | math e =>
-      have hv := renderMath_env cx cfg hg hrn st B txt e (printSegs rest ++ post)
-        (by rw [hc]; simp [printSegs, printSeg, List.append_assoc]) E hD hit hsg.2 hsg.1
-      have hl : (B ++ txt ++ printSeg (.math e)).length = (B ++ txt).length + 6 + e.length + 1 := by
-        simp [printSeg]; omega
-      obtain ⟨B2, txt2, st2, h1, h2, h3, h4, h5⟩ := htag
-        (.math (itemsAtC cfg cx.content (refsD (dOf E)) ((B ++ txt).length + 6) ((B ++ txt).length + 6 + e.length)) (B ++ txt).length
-          ((B ++ txt).length + 6 + e.length + 1)) (expSegB cx (scOf E) (.math e)) _
-        (by rw [hc]; simp [printSegs, List.append_assoc]) hl (by
-          rw [show fuel + nTags rest = (fuel - 1 + nTags rest) + 1 by omega]
-          simp only [renderTag]; exact hv)
-      refine ⟨B2, txt2, st2, h1, ?_, ?_, h4, ?_⟩
-      · rw [h2]; simp [printSegs, List.length_append]; omega
-      · rw [h3]; simp [expSegsB, List.append_assoc]
-      · simpa [tagsOfD, nTags, Nat.add_assoc] using h5
-
-
-
-/-- `loopIter` over the entries of the collection, the body rendered by `hbody` -/
-theorem loopIter_gen (cx : RCtx R) (sub : List (Tag R)) (f : LoopFields) (set : Doc)
-    (Eo : Doc → List Nat → List Nat) (Nf : Doc → List Nat → Nat) (nb : Nat) (Inv : List LoopItem → Prop)
-    (hinv : ∀ items it, Inv items → Inv (items.set f.level it))
-    (hbody : ∀ (x : Doc) (key : List Nat) (st : RState) (g : Nat), Inv st.items →
-      st.items[f.level]? = some ⟨some x, key⟩ → Nf x key ≤ g →
-      ∃ st', render cx (g + nb) sub (f.off + f.contentOff) f.endOff st = .ok st' ∧ st'.out = st.out ++ Eo x key ∧
-        Inv st'.items ∧ f.level < st'.items.length) :
-    ∀ (n idx : Nat) (st : RState) (fuel : Nat), idx + n = (entsOf set).length → f.level < st.items.length →
-      Inv st.items → n + sumEnts Nf ((entsOf set).drop idx) + nb + 1 ≤ fuel →
-      ∃ st', loopIter cx fuel sub f set set.size idx st = .ok st' ∧
-        st'.out = st.out ++ outEnts Eo ((entsOf set).drop idx) ∧ Inv st'.items := by
-  intro n
-  induction n with
-  | zero =>
-    intro idx st fuel hn hl hI hf
-    obtain ⟨g, rfl⟩ : ∃ g, fuel = g + 1 := ⟨fuel - 1, by omega⟩
-    have : ¬ idx < set.size := by rw [← entsOf_length]; omega
-    refine ⟨st, by simp [loopIter, this], ?_, hI⟩
-    rw [List.drop_of_length_le (by omega)]; simp [outEnts]
-  | succ n ih =>
-    intro idx st fuel hn hl hI hf
-    obtain ⟨g, rfl⟩ : ∃ g, fuel = g + 1 := ⟨fuel - 1, by omega⟩
-    have hlt : idx < set.size := by rw [← entsOf_length]; omega
-    have hlt' : idx < (entsOf set).length := by omega
-    obtain ⟨it, hit⟩ : ∃ it, st.items[f.level]? = some it := ⟨st.items[f.level], List.getElem?_eq_getElem hl⟩
-    have hia : itemAt st f.level = .ok it := by simp [itemAt, hit]
-    have hdrop : (entsOf set).drop idx = (entsOf set)[idx] :: (entsOf set).drop (idx + 1) :=
-      List.drop_eq_getElem_cons hlt'
-    obtain ⟨hval, hkey⟩ := itemOf_ents set idx it hlt'
-    generalize hkv : (entsOf set)[idx] = kv at hval hkey
-    obtain ⟨k, v⟩ := kv
-    simp only at hval hkey
-    generalize hit0 : itemOf set idx it = it0 at hval hkey
-    have hget : (st.items.set f.level it0)[f.level]? = some it0 := by
-      simp [List.getElem?_set_self hl]
-    rw [hdrop, hkv] at hf ⊢
-    simp only [sumEnts] at hf
-    rw [loopIter_succ]
-    simp only [hlt, if_true, hia, bind, Except.bind, hit0]
-    cases hu : v.isUndefined
-    · simp only [hu, Bool.false_eq_true, if_false] at hval
-      have hk := hkey hu
-      have hitem : it0 = ⟨some v, k⟩ := by cases it0; simp_all
-      obtain ⟨st1, hr, ho, hI1, hl1⟩ := hbody v k { st with items := st.items.set f.level it0 } (g - nb)
-        (hinv _ _ hI) (by show (st.items.set f.level it0)[f.level]? = some ⟨some v, k⟩; rw [hget, hitem]) (by omega)
-      rw [show g - nb + nb = g by omega] at hr
-      simp only [hval, Option.isSome_some, if_true, hr]
-      obtain ⟨st', h1, h2, h3⟩ := ih (idx + 1) st1 g (by omega) hl1 hI1 (by omega)
-      refine ⟨st', h1, ?_, h3⟩
-      rw [h2, ho]; simp [outEnts, hu, List.append_assoc]
-    · simp only [hu, if_true] at hval
-      simp only [hval, Option.isSome_none, Bool.false_eq_true, if_false, pure, Except.pure]
-      obtain ⟨st', h1, h2, h3⟩ := ih (idx + 1) { st with items := st.items.set f.level it0 } g
-        (by omega) (by simp; exact hl) (hinv _ _ hI) (by omega)
-      refine ⟨st', h1, ?_, h3⟩
-      rw [h2]; simp [outEnts, hu]
-
 
 /-- the value name of a printed loop header stands at `pre.length + voOf S` -/
 theorem chainD_hdr (c pre S V rest : List Nat) (hc : c = pre ++ (LOOPW ++ (hdrOf S V ++ rest))) :
@@ -687,6 +34,8 @@ def GT.pathV (rn : List Nat → Option (Num R)) : List (List Nat) → GT → Pro
   | Vs, .segs l => ∀ s ∈ l, s.pathV rn Vs
   | Vs, .ifc e body tail => (varsOkV rn Vs e 34 ∧ e.length < 65536) ∧ GTs.pathV rn Vs body ∧ GTail.pathV rn Vs tail
   | Vs, .loop S V body => (S ≠ [] → PathOkV Vs S) ∧ GTs.pathV rn (V :: Vs) body
+  | Vs, .iif e ts fs => (varsOkV rn Vs e 34 ∧ e.length < 65536) ∧ ValPath rn Vs ts ∧ ValPath rn Vs fs
+  | Vs, .svar pa ar => PathOkV Vs pa ∧ (∀ V ∈ Vs, V.isPrefixOf pa = false) ∧ ∀ a ∈ ar, a.pathV rn Vs
 def GTs.pathV (rn : List Nat → Option (Num R)) : List (List Nat) → GTs → Prop
   | _, .nil => True
   | Vs, .cons b r => GT.pathV rn Vs b ∧ GTs.pathV rn Vs r
@@ -701,6 +50,8 @@ def GT.caseV (rn : List Nat → Option (Num R)) : GT → Prop
   | .segs _ => True
   | .ifc e body tail => (tail = .fin ∨ exprOk rn e) ∧ GTs.caseV rn body ∧ GTail.caseV rn tail
   | .loop _ _ body => GTs.caseV rn body
+  | .iif _ _ _ => True
+  | .svar _ _ => True
 def GTs.caseV (rn : List Nat → Option (Num R)) : GTs → Prop
   | .nil => True
   | .cons b r => GT.caseV rn b ∧ GTs.caseV rn r
@@ -715,6 +66,8 @@ def rcostGT : GT → Nat
   | .segs l => nTags l
   | .ifc _ _ _ => 1
   | .loop _ _ _ => 1
+  | .iif _ _ _ => 1
+  | .svar _ _ => 1
 def rcostGTs : GTs → Nat
   | .nil => 0
   | .cons b r => rcostGT b + rcostGTs r
@@ -730,6 +83,8 @@ def expGT (cx : RCtx R) : List Binding → GT → List Nat
   | sc, .segs l => expSegsB cx sc l
   | sc, .ifc e body tail => if hitOfS cx sc e = true then expGTs cx sc body else expGTail cx sc tail
   | sc, .loop S V body => outEnts (fun x key => expGTs cx (⟨V, x, key⟩ :: sc) body) (entsO (collS cx sc S))
+  | sc, .iif e ts fs => expIif cx sc e ts fs
+  | sc, .svar pa ar => expSvar cx sc pa ar
 def expGTs (cx : RCtx R) : List Binding → GTs → List Nat
   | _, .nil => []
   | sc, .cons b r => expGT cx sc b ++ expGTs cx sc r
@@ -747,6 +102,8 @@ def rneedGT (cx : RCtx R) : List Binding → GT → Nat
   | sc, .loop S V body =>
     (entsO (collS cx sc S)).length +
       sumEnts (fun x key => rneedGTs cx (⟨V, x, key⟩ :: sc) body) (entsO (collS cx sc S)) + rcostGTs body + 3
+  | _, .iif _ ts fs => nTagsVal ts + nTagsVal fs + 3
+  | sc, .svar pa _ => svarNeed cx sc pa + 1
 def rneedGTs (cx : RCtx R) : List Binding → GTs → Nat
   | _, .nil => 1
   | sc, .cons b r => rneedGT cx sc b + rneedGTs cx sc r
@@ -1009,6 +366,48 @@ theorem render_gt (cx : RCtx R) (cfg : ScanCfg R) (hg : cx.guardIndexRead = true
     simp only [tagsGT, rcostGT, List.cons_append, List.nil_append, render, r1, bind, Except.bind]
     congr 1
     simp only [List.length_append, hlb]; omega
+  | .iif e ts fs, E, dep, more, endO, post, B, txt, st, fuel, hc, hok, hpath, _, hD, hit, _, _, hf => by
+    simp only [GT.ok] at hok
+    obtain ⟨_, _, hts, hfs, hone, hsz⟩ := hok
+    simp only [GT.pathV] at hpath
+    obtain ⟨⟨hvo, he16⟩, hpt, hpf⟩ := hpath
+    simp only [rneedGT] at hf
+    simp only [printGT] at hc
+    have hrt := renderIif_env cx cfg hg hrn E hD B txt e post ts fs hc he16 hvo hts hfs hpt hpf hone hsz st hit fuel hf
+    refine ⟨B ++ txt ++ printIif e ts fs, [], emit (emit st txt) (expIif cx (scOf E) e ts fs),
+      by rw [hc]; simp [List.append_assoc], by simp [printGT, List.length_append]; omega,
+      by simp [emit, expGT, List.append_assoc], by simpa [emit] using hit, ?_⟩
+    simp only [tagsGT, rcostGT, List.cons_append, List.nil_append, render, hrt, bind, Except.bind]
+    congr 1
+    simp only [List.length_append]
+  | .svar pa ar, E, dep, more, endO, post, B, txt, st, fuel, hc, hok, hpath, _, hD, hit, _, _, hf => by
+    simp only [GT.ok] at hok
+    obtain ⟨_, _, _, _, hargs, _, _⟩ := hok
+    simp only [GT.pathV] at hpath
+    obtain ⟨hp, hnv, hpa⟩ := hpath
+    simp only [rneedGT] at hf
+    simp only [printGT] at hc
+    have hfind : findV (dOf E) pa = none := by
+      have : ∀ (D : List LoopD), (∀ d ∈ D, d.V.isPrefixOf pa = false) → findV D pa = none := by
+        intro D
+        induction D with
+        | nil => intro _; rfl
+        | cons d r ih =>
+          intro h
+          simp only [findV, h d (List.mem_cons_self ..), Bool.false_eq_true, if_false]
+          exact ih (fun x hx => h x (List.mem_cons_of_mem _ hx))
+      apply this
+      intro d hd
+      obtain ⟨e, he, rfl⟩ := List.mem_map.mp hd
+      exact hnv e.d.V (List.mem_map_of_mem he)
+    have hrt := renderSvar_env cx cfg hg hrn E hD B txt pa post ar hc hp hfind
+      (fun a ha => ⟨(hargs a ha).2, hpa a ha⟩) st hit fuel hf
+    refine ⟨B ++ txt ++ printSvar pa ar, [], emit (emit st txt) (expSvar cx (scOf E) pa ar),
+      by rw [hc]; simp [List.append_assoc], by simp [printGT, List.length_append]; omega,
+      by simp [emit, expGT, List.append_assoc], by simpa [emit] using hit, ?_⟩
+    simp only [tagsGT, rcostGT, List.cons_append, List.nil_append, render, hrt, bind, Except.bind]
+    congr 1
+    simp only [List.length_append]
 theorem render_gts (cx : RCtx R) (cfg : ScanCfg R) (hg : cx.guardIndexRead = true) (hrn : cfg.readNum = cx.readNum)
     (hn32 : cx.content.length < 4294967296) :
     ∀ (bs : GTs) (E : List EnvE) (dep : Nat) (more : List (Tag R)) (endO : Nat) (post B txt : List Nat) (st : RState)
@@ -1121,35 +520,39 @@ end
 /-! ### the reference interpreter on a tree; top level -/
 
 theorem loopArr_gen (sx : SpecCtx R) (sc : List Binding) (V : List Nat) (bodyT : List Tpl)
-    (Eo : Doc → List Nat → List Nat) (Nf : Doc → List Nat → Nat)
-    (hbody : ∀ x key f, Nf x key ≤ f → expandList sx f (⟨V, x, key⟩ :: sc) bodyT = Eo x key) :
-    ∀ (xs : List Doc) (fuel : Nat), xs.length + sumEnts Nf (xs.map (fun x => ([], x))) + 1 ≤ fuel →
+    (Eo : Doc → List Nat → List Nat) (Nf : Doc → List Nat → Nat) :
+    ∀ (xs : List Doc) (fuel : Nat),
+      (∀ x ∈ xs, ∀ key f, Nf x key ≤ f → expandList sx f (⟨V, x, key⟩ :: sc) bodyT = Eo x key) →
+      xs.length + sumEnts Nf (xs.map (fun x => ([], x))) + 1 ≤ fuel →
       loopArr sx fuel sc V bodyT xs = outEnts Eo (xs.map (fun x => ([], x))) := by
   intro xs
   induction xs with
-  | nil => intro fuel _; cases fuel <;> simp [loopArr, outEnts]
+  | nil => intro fuel _ _; cases fuel <;> simp [loopArr, outEnts]
   | cons x xs ih =>
-    intro fuel hf
+    intro fuel hbody hf
     obtain ⟨g, rfl⟩ : ∃ g, fuel = g + 1 := ⟨fuel - 1, by omega⟩
     simp only [List.map_cons, sumEnts, List.length_cons] at hf
     simp only [loopArr, List.map_cons, outEnts]
-    rw [ih g (by omega), hbody x [] g (by omega)]
+    rw [ih g (fun y hy => hbody y (List.mem_cons_of_mem _ hy)) (by omega),
+      hbody x (List.mem_cons_self ..) [] g (by omega)]
 
 theorem loopObj_gen (sx : SpecCtx R) (sc : List Binding) (V : List Nat) (bodyT : List Tpl)
-    (Eo : Doc → List Nat → List Nat) (Nf : Doc → List Nat → Nat)
-    (hbody : ∀ x key f, Nf x key ≤ f → expandList sx f (⟨V, x, key⟩ :: sc) bodyT = Eo x key) :
-    ∀ (ms : List (List Nat × Doc)) (fuel : Nat), ms.length + sumEnts Nf ms + 1 ≤ fuel →
+    (Eo : Doc → List Nat → List Nat) (Nf : Doc → List Nat → Nat) :
+    ∀ (ms : List (List Nat × Doc)) (fuel : Nat),
+      (∀ kx ∈ ms, ∀ key f, Nf kx.2 key ≤ f → expandList sx f (⟨V, kx.2, key⟩ :: sc) bodyT = Eo kx.2 key) →
+      ms.length + sumEnts Nf ms + 1 ≤ fuel →
       loopObj sx fuel sc V bodyT ms = outEnts Eo ms := by
   intro ms
   induction ms with
-  | nil => intro fuel _; cases fuel <;> simp [loopObj, outEnts]
+  | nil => intro fuel _ _; cases fuel <;> simp [loopObj, outEnts]
   | cons kx ms ih =>
     obtain ⟨k, x⟩ := kx
-    intro fuel hf
+    intro fuel hbody hf
     obtain ⟨g, rfl⟩ : ∃ g, fuel = g + 1 := ⟨fuel - 1, by omega⟩
     simp only [sumEnts, List.length_cons] at hf
     simp only [loopObj, outEnts]
-    rw [ih g (by omega), hbody x k g (by omega)]
+    rw [ih g (fun y hy => hbody y (List.mem_cons_of_mem _ hy)) (by omega),
+      hbody (k, x) (List.mem_cons_self ..) k g (by show Nf x k ≤ g; omega)]
 
 mutual
 /-- reference fuel a tree needs under the bindings `sc` -/
@@ -1159,6 +562,8 @@ def eneedGT (cx : RCtx R) : List Binding → GT → Nat
   | sc, .loop S V body =>
     (entsO (collS cx sc S)).length +
       sumEnts (fun x key => eneedGTs cx (⟨V, x, key⟩ :: sc) body) (entsO (collS cx sc S)) + 3
+  | _, .iif _ ts fs => (match ts with | some l => l.length | none => 0) + (match fs with | some l => l.length | none => 0) + 3
+  | sc, .svar pa _ => svarNeed cx sc pa + 2
 def eneedGTs (cx : RCtx R) : List Binding → GTs → Nat
   | _, .nil => 1
   | sc, .cons b r => eneedGT cx sc b + (GT.toTpls b).length + eneedGTs cx sc r
@@ -1169,60 +574,107 @@ def eneedGTail (cx : RCtx R) : List Binding → GTail → Nat
 end
 
 mutual
-theorem expand_gt (cx : RCtx R) : ∀ (b : GT) (sc : List Binding) (fuel : Nat), eneedGT cx sc b ≤ fuel →
+theorem expand_gt (cx : RCtx R) (hU : ∀ s, Reach cx.root (.str s) → ∀ x ∈ s, x < 2 ^ 32) :
+    ∀ (b : GT) (sc : List Binding) (fuel : Nat), b.ok → (∀ bd ∈ sc, Reach cx.root bd.item) → eneedGT cx sc b ≤ fuel →
     expandList (specOf cx) fuel sc b.toTpls = expGT cx sc b
-  | .segs l, sc, fuel, hf => by
+  | .segs l, sc, fuel, hok, hsc, hf => by
     simp only [eneedGT] at hf
     simp only [GT.toTpls, expGT]
     exact expandList_body cx sc l fuel hf
-  | .ifc e body tail, sc, fuel, hf => by
+  | .ifc e body tail, sc, fuel, hok, hsc, hf => by
+    simp only [GT.ok] at hok
     simp only [eneedGT] at hf
     obtain ⟨f, rfl⟩ : ∃ f, fuel = f + 3 := ⟨fuel - 3, by omega⟩
     simp only [GT.toTpls, expandList, expandTpl, expandBranches, expandList_nil, List.append_nil, expGT, hitOfS]
-    rw [expand_gts cx body sc f (by omega), expand_gtail cx tail sc f (by omega)]
+    rw [expand_gts cx hU body sc f hok.2.1 hsc (by omega), expand_gtail cx hU tail sc f hok.2.2 hsc (by omega)]
     by_cases hh : isTrue (evalText (specOf cx) sc e 34) = some true <;> simp [hh]
-  | .loop S V body, sc, fuel, hf => by
+  | .loop S V body, sc, fuel, hok, hsc, hf => by
+    simp only [GT.ok] at hok
     simp only [eneedGT] at hf
     obtain ⟨f, rfl⟩ : ∃ f, fuel = f + 2 := ⟨fuel - 2, by omega⟩
     simp only [GT.toTpls, expandList, expandTpl, expandList_nil, List.append_nil, expGT,
       show (specOf cx).root = cx.root from rfl]
     have hcoll : (if S.isEmpty = true then some cx.root else (resolve cx.root sc S).1) = collS cx sc S := rfl
     rw [hcoll]
-    have hb : ∀ x key g, eneedGTs cx (⟨V, x, key⟩ :: sc) body ≤ g →
+    have hb : ∀ x, Reach cx.root x → ∀ key g, eneedGTs cx (⟨V, x, key⟩ :: sc) body ≤ g →
         expandList (specOf cx) g (⟨V, x, key⟩ :: sc) (gtsTpl body) = expGTs cx (⟨V, x, key⟩ :: sc) body :=
-      fun x key g hg => expand_gts cx body (⟨V, x, key⟩ :: sc) g hg
+      fun x hx key g hg => expand_gts cx hU body (⟨V, x, key⟩ :: sc) g hok.2
+        (by
+          intro bd hbd
+          rcases List.mem_cons.mp hbd with h | h
+          · subst h; exact hx
+          · exact hsc bd h) hg
+    have hreach : ∀ d, collS cx sc S = some d → Reach cx.root d := by
+      intro d hd
+      simp only [collS] at hd
+      by_cases hS : S.isEmpty = true
+      · simp only [hS, if_true, Option.some.injEq] at hd; subst hd; exact Reach.root
+      · simp only [hS, Bool.false_eq_true, if_false] at hd; exact resolve_reach cx.root sc hsc S d hd
     cases hres : collS cx sc S with
     | none => simp [entsO, outEnts]
     | some d =>
       rw [hres] at hf
+      have hrd := hreach d hres
       cases d with
       | arr xs =>
         simp only [entsO, entsOf] at hf ⊢
-        exact loopArr_gen (specOf cx) sc V (gtsTpl body) _ _ hb xs f (by simp only [List.length_map] at hf; omega)
+        exact loopArr_gen (specOf cx) sc V (gtsTpl body) (fun x key => expGTs cx (⟨V, x, key⟩ :: sc) body)
+          (fun x key => eneedGTs cx (⟨V, x, key⟩ :: sc) body) xs f
+          (fun x hx => hb x (Reach.item xs x hrd hx)) (by simp only [List.length_map] at hf; omega)
       | obj ms =>
         simp only [entsO, entsOf] at hf ⊢
-        exact loopObj_gen (specOf cx) sc V (gtsTpl body) _ _ hb ms f (by omega)
+        exact loopObj_gen (specOf cx) sc V (gtsTpl body) (fun x key => expGTs cx (⟨V, x, key⟩ :: sc) body)
+          (fun x key => eneedGTs cx (⟨V, x, key⟩ :: sc) body) ms f
+          (fun kx hkx => hb kx.2 (Reach.mem ms kx.1 kx.2 hrd hkx)) (by omega)
       | _ => simp [entsO, entsOf, outEnts]
-theorem expand_gts (cx : RCtx R) : ∀ (bs : GTs) (sc : List Binding) (fuel : Nat), eneedGTs cx sc bs ≤ fuel →
+  | .iif e ts fs, sc, fuel, hok, hsc, hf => by
+    simp only [eneedGT] at hf
+    obtain ⟨f, rfl⟩ : ∃ f, fuel = f + 2 := ⟨fuel - 2, by omega⟩
+    simp only [GT.toTpls, expandList, expandTpl, expandList_nil, List.append_nil, expGT, expIif]
+    cases isTrue (evalText (specOf cx) sc e 34) with
+    | none => rfl
+    | some b =>
+      cases b with
+      | true =>
+        cases ts with
+        | none => rfl
+        | some l => simp only [Option.map_some, expVal]; exact expandList_body cx sc l f (by simp at hf; omega)
+      | false =>
+        cases fs with
+        | none => rfl
+        | some l => simp only [Option.map_some, expVal]; exact expandList_body cx sc l f (by simp at hf; omega)
+  | .svar pa ar, sc, fuel, hok, hsc, hf => by
+    simp only [GT.ok] at hok
+    simp only [eneedGT] at hf
+    obtain ⟨f, rfl⟩ : ∃ f, fuel = f + 1 := ⟨fuel - 1, by omega⟩
+    simp only [GT.toTpls, expandList, expandList_nil, List.append_nil, expGT]
+    exact expandTpl_svar cx sc pa ar hok.2.2.2.2.2.2
+      (fun s hs => hU s (resolve_reach cx.root sc hsc pa _ hs)) f (by omega)
+theorem expand_gts (cx : RCtx R) (hU : ∀ s, Reach cx.root (.str s) → ∀ x ∈ s, x < 2 ^ 32) :
+    ∀ (bs : GTs) (sc : List Binding) (fuel : Nat), bs.ok → (∀ bd ∈ sc, Reach cx.root bd.item) → eneedGTs cx sc bs ≤ fuel →
     expandList (specOf cx) fuel sc (gtsTpl bs) = expGTs cx sc bs
-  | .nil, sc, fuel, _ => by simp [gtsTpl, expGTs, expandList_nil]
-  | .cons b r, sc, fuel, hf => by
+  | .nil, sc, fuel, _, _, _ => by simp [gtsTpl, expGTs, expandList_nil]
+  | .cons b r, sc, fuel, hok, hsc, hf => by
+    simp only [GTs.ok] at hok
     simp only [eneedGTs] at hf
     simp only [gtsTpl, expGTs]
-    rw [expandList_append, expand_gt cx b sc fuel (by omega), expand_gts cx r sc _ (by omega)]
-theorem expand_gtail (cx : RCtx R) : ∀ (t : GTail) (sc : List Binding) (fuel : Nat), eneedGTail cx sc t ≤ fuel →
+    rw [expandList_append, expand_gt cx hU b sc fuel hok.1 hsc (by omega), expand_gts cx hU r sc _ hok.2 hsc (by omega)]
+theorem expand_gtail (cx : RCtx R) (hU : ∀ s, Reach cx.root (.str s) → ∀ x ∈ s, x < 2 ^ 32) :
+    ∀ (t : GTail) (sc : List Binding) (fuel : Nat), t.ok → (∀ bd ∈ sc, Reach cx.root bd.item) → eneedGTail cx sc t ≤ fuel →
     expandBranches (specOf cx) fuel sc (tailBrG t) = expGTail cx sc t
-  | .fin, sc, fuel, _ => by simp [tailBrG, expGTail, expandBranches_nil]
-  | .els body, sc, fuel, hf => by
+  | .fin, sc, fuel, _, _, _ => by simp [tailBrG, expGTail, expandBranches_nil]
+  | .els body, sc, fuel, hok, hsc, hf => by
+    simp only [GTail.ok] at hok
     simp only [eneedGTail] at hf
     obtain ⟨f, rfl⟩ : ∃ f, fuel = f + 1 := ⟨fuel - 1, by omega⟩
     simp only [tailBrG, expandBranches, if_true, expGTail]
-    exact expand_gts cx body sc f (by omega)
-  | .elif e body tail, sc, fuel, hf => by
+    exact expand_gts cx hU body sc f hok hsc (by omega)
+  | .elif e body tail, sc, fuel, hok, hsc, hf => by
+    simp only [GTail.ok] at hok
     simp only [eneedGTail] at hf
     obtain ⟨f, rfl⟩ : ∃ f, fuel = f + 1 := ⟨fuel - 1, by omega⟩
     simp only [tailBrG, expandBranches, expGTail, hitOfS]
-    rw [expand_gts cx body sc f (by omega), expand_gtail cx tail sc f (by omega)]
+    rw [expand_gts cx hU body sc f hok.2.1 hsc (by omega), expand_gtail cx hU tail sc f hok.2.2 hsc (by omega)]
     by_cases hh : isTrue (evalText (specOf cx) sc e 34) = some true <;> simp [hh]
 end
 
